@@ -172,6 +172,23 @@ impl TypeParams {
         }
     }
 
+    /// If `ty` names a declared parameter, replaces it with its concrete type - again if that is
+    /// the name of another parameter (`type A = B, type B = u8`); this ends because the items that
+    /// refer to themselves have been forgotten (`reject_recursive_types`)
+    pub fn substitute(&self, ty: &mut Type) {
+        loop {
+            let substitute = match ty {
+                // Skip types that begin with `self::`
+                Type::Path(tp) if tp.qself.is_none() => self.find(&tp.path),
+                _ => None,
+            };
+            match substitute {
+                Some(substitute) => *ty = substitute,
+                None => break,
+            }
+        }
+    }
+
     pub fn find(&self, path: &Path) -> Option<Type> {
         for (ident, ty) in &self.type_params {
             if path.is_ident(ident) {
@@ -232,15 +249,7 @@ impl TypeParams {
                     let mut ty = ty.clone();
                     // The concrete type may mention other declared parameters
                     // (`type A = Vec<B>, type B = u8`): they are replaced as in the variant fields
-                    traverse_type(&mut ty, &mut |ty| {
-                        if let Type::Path(tp) = ty {
-                            if tp.qself.is_none() {
-                                if let Some(substitute) = self.find(&tp.path) {
-                                    *ty = substitute;
-                                }
-                            }
-                        }
-                    });
+                    traverse_type(&mut ty, &mut |ty| self.substitute(ty));
                     self.fix_source_lifetime_implicit(&mut ty);
                     generics.push(quote!(#ty))
                 }
